@@ -37,6 +37,9 @@ Bump(c, names) ==        \* each property is counted at most once per event: cnt
 Live(sid) == sid \in DOMAIN st /\ ~st[sid].dead
 SetStore(sid, S) == [x \in DOMAIN st \cup {sid} |-> IF x = sid THEN S ELSE st[x]]
 WithS(sid, s) == SetStore(sid, [st[sid] EXCEPT !.s = s])
+\* id -> position of the record (kept next to the store state so that predicates need not search the list)
+WithAdd(sid, s, id) == SetStore(sid, [st[sid] EXCEPT !.s = s, !.ix = [x \in DOMAIN st[sid].ix \cup {id} |-> IF x = id THEN Len(s.records) ELSE st[sid].ix[x]]])
+WithClear(sid, s) == SetStore(sid, [st[sid] EXCEPT !.s = s, !.ix = <<>>])
 
 \* L2: the recorded projection of the real store equals the specification's state
 ProjDrift(s, line) ==
@@ -61,7 +64,7 @@ Skip == Step(NoRes, st, <<>>) /\ UNCHANGED <<mem, cs, reg>>
 
 TvHeader == E.op \in {"header", "chartable", "endcase"} /\ Skip
 TvCase   == E.op = "case" /\ cs' = l /\ st' = <<>> /\ mem' = <<>> /\ reg' = NoRegistry /\ UNCHANGED <<viol, drift, cnt>>
-TvNew    == E.op = "new" /\ Step(NoRes, SetStore(E.sid, [lang |-> E.lang, s |-> NewStore, dead |-> FALSE]), <<>>) /\ UNCHANGED <<mem, cs, reg>>
+TvNew    == E.op = "new" /\ Step(NoRes, SetStore(E.sid, [lang |-> E.lang, s |-> NewStore, dead |-> FALSE, ix |-> <<>>]), <<>>) /\ UNCHANGED <<mem, cs, reg>>
 TvDrop   == E.op = "drop" /\ Step(NoRes, [x \in DOMAIN st \ {E.sid} |-> st[x]], <<>>) /\ UNCHANGED <<mem, cs, reg>>
 
 Dead(sid) == SetStore(sid, [st[sid] EXCEPT !.dead = TRUE])
@@ -75,14 +78,14 @@ TvAdd ==
        THEN Step(C01(E, l), Dead(E.sid), <<>>)
        ELSE LET s2 == S_Add(st[E.sid].s, E.id, E.title, E.rating, E.tok) IN
             Step(Join2(C01(E, l), Chk(WellFormed(E.tok, FALSE), l, "C15", "record tokenisation is not well formed")),
-                 WithS(E.sid, s2),
+                 WithAdd(E.sid, s2, E.id),
                  ProjDrift(s2, l) \o Check(E.ix = st[E.sid].s.nextIx, l, "L2", "record position differs"))
   /\ UNCHANGED <<mem, cs, reg>>
 
 TvClear ==
   /\ E.op = "clear" /\ Live(E.sid) /\ ~Has(E, "skipped")
   /\ IF Has(E, "panic") THEN Step(C01(E, l), Dead(E.sid), <<>>)
-     ELSE LET s2 == S_Clear(st[E.sid].s) IN Step(C01(E, l), WithS(E.sid, s2), ProjDrift(s2, l))
+     ELSE LET s2 == S_Clear(st[E.sid].s) IN Step(C01(E, l), WithClear(E.sid, s2), ProjDrift(s2, l))
   /\ UNCHANGED <<mem, cs, reg>>
 
 TvLimit ==
@@ -148,15 +151,20 @@ CacheAllowed(s) ==
      IN /\ \A i \in DOMAIN ixs : InRange(ixs[i], Len(items))
         /\ IsTopK([i \in DOMAIN ixs |-> items[ixs[i] + 1]], items, s.limit)
 
+\* per-hit predicates are evaluated on every hit of a list of up to 80 hits, and on the first 60 and last 20 of longer ones
+HitIdx(hits) == IF Len(hits) <= 80 THEN [i \in DOMAIN hits |-> i]
+                ELSE [i \in 1..80 |-> IF i <= 60 THEN i ELSE Len(hits) - 80 + i]
+PerHit(hits, F(_)) == JoinAll([k \in DOMAIN HitIdx(hits) |-> F(hits[HitIdx(hits)[k]])])
+
 SearchProps(S) ==
   IF ~Has(E, "hits") THEN JoinAll(<<C01(E, l), IF Has(E, "acc") THEN Res(AccFindings(E, l), <<"C19">>) ELSE NoRes,
                                     C10(E, S, l)>>)      \* a search that does not return is not what a fresh store returns
   ELSE JoinAll(<<
          C01(E, l),
-         JoinAll([i \in DOMAIN E.hits |-> C02Hit(E.hits[i], S, l)]),
+         PerHit(E.hits, LAMBDA h : C02Hit(h, S, l)),
          C02Alt(E, S, l),
-         JoinAll([i \in DOMAIN E.hits |-> C09Hit(E.hits[i], E, S, l)]),
-         JoinAll([i \in DOMAIN E.hits |-> C05Hit(E.hits[i], E, S, l)]),
+         PerHit(E.hits, LAMBDA h : C09Hit(h, E, S, l)),
+         PerHit(E.hits, LAMBDA h : C05Hit(h, E, S, l)),
          C06Basic(E, S, l), C06Rel(E, S, l), C07Rel(E, S, l),
          C10(E, S, l), C12(E, S, l),
          IF Has(E, "acc") THEN Res(AccFindings(E, l), <<"C19">>) ELSE NoRes,
@@ -248,8 +256,22 @@ RegProps(reg2, isSearch) ==
             "a result buffer changed without a search on its id (or a re-created id did not start empty)"),
         IF isSearch THEN
           LET tag == "sa" \o ToString(E.id) IN
-          ChkIf(tag \in DOMAIN mem /\ mem[tag].q = E.q /\ mem[tag].sid = Twin(E.id) /\ TwinMatches(E.id, reg2[E.id]),
-                BufOf(E.id) = mem[tag].hits, l, "C20", "result buffer differs from what a stand-alone store returns")
+          JoinAll(<<
+            ChkIf(tag \in DOMAIN mem /\ mem[tag].q = E.q /\ mem[tag].sid = Twin(E.id) /\ TwinMatches(E.id, reg2[E.id]),
+                  BufOf(E.id) = mem[tag].hits, l, "C20", "result buffer differs from what a stand-alone store returns"),
+            \* what the top-level API hands out is judged like any other search result (the stand-alone twin supplies the
+            \* specification's view of the records: tokenisation, limit, markers)
+            IF Has(E, "qtok") /\ TwinMatches(E.id, reg2[E.id]) THEN
+              LET S  == st[Twin(E.id)]
+                  EE == [op |-> "search", sid |-> Twin(E.id), q |-> E.q, qtok |-> E.qtok, hits |-> BufOf(E.id)]
+              IN JoinAll(<<
+                   JoinAll([i \in DOMAIN EE.hits |-> C02Hit(EE.hits[i], S, l)]),
+                   JoinAll([i \in DOMAIN EE.hits |-> C09Hit(EE.hits[i], EE, S, l)]),
+                   JoinAll([i \in DOMAIN EE.hits |-> C05Hit(EE.hits[i], EE, S, l)]),
+                   C06Basic(EE, S, l), C12(EE, S, l),
+                   ChkIf(tag \in DOMAIN mem /\ mem[tag].q = E.q /\ mem[tag].sid = Twin(E.id),
+                         BufOf(E.id) = mem[tag].hits, l, "C10", "top-level search differs from the same search on a stand-alone store") >>)
+            ELSE NoRes >>)
         ELSE NoRes >>)
     ELSE NoRes >>)
 
